@@ -169,6 +169,20 @@ func GenDraw(rng *rand.Rand, thorough bool) []*Scn {
 			out = append(out, drawScn(lf, m[0], m[1], 0, 0))
 		}
 	}
+	// single lines of more than 65535 columns (a handful: each costs a few ms)
+	for _, cat := range []int{65536, 65541, 32769} {
+		for _, lf := range leafs("x", 0) {
+			c := *lf
+			c.Cat = cat
+			if cat == 32769 {
+				c.S = "世" // 65538 columns in 32769 graphemes
+			}
+			for _, m := range [][2]int{{10, 1}, {65535, 65535}, {65535, 2}} {
+				out = append(out, drawScn(&c, m[0], m[1], 0, 0))
+			}
+			out = append(out, drawScn(&WD{K: "center", C: &c}, 80, 24, 0, 0))
+		}
+	}
 	// list state: select / scroll between draws at changing constraints
 	nseq := 150
 	if thorough {
@@ -363,9 +377,156 @@ func GenPaintRandom(rng *rand.Rand, n int) []*Scn {
 				root.Kids = append(root.Kids, bigChild(256+rng.Intn(60), 256+rng.Intn(60), 1+rng.Intn(cols), 1+rng.Intn(rows), salt))
 				distinctZ(root.Kids, rng)
 			}
+			if i%2 == 1 {
+				widen(root, rng, root.W <= cols && root.H <= rows)
+			}
 			sc.Frames = append(sc.Frames, root)
 		}
 		out = append(out, sc)
 	}
 	return out
+}
+
+// ---- paint: wide graphemes under and over the edges of other surfaces --------
+
+var wideRunes = []int{'世', '界', '你', '好'}
+
+// rowWrites turns a pattern ('n' narrow, 'W' wide + the column it covers, '.'
+// nothing written) into the writes of one row. A wide grapheme is followed by
+// a column the surface does not write: what a surface holds under its own
+// wide grapheme is not part of the property.
+func rowWrites(pat string, row, salt int) [][3]int {
+	var ws [][3]int
+	c := 0
+	for _, p := range pat {
+		switch p {
+		case 'n':
+			ws = append(ws, [3]int{c, row, 'a' + (salt*7+c+3*row)%26})
+			c++
+		case 'W':
+			ws = append(ws, [3]int{c, row, wideRunes[(salt+c+row)%len(wideRunes)]})
+			c += 2
+		default:
+			c++
+		}
+	}
+	return ws
+}
+
+func patWidth(pat string) int {
+	w := 0
+	for _, p := range pat {
+		if p == 'W' {
+			w += 2
+		} else {
+			w++
+		}
+	}
+	return w
+}
+
+// GenPaintWide: bounded-exhaustive on a 7x2 screen. The root holds narrow
+// letters in row 0 and wide graphemes of its own in row 1; child A (z 0, four
+// columns of row 0, every arrangement of narrow and wide cells, its cells its
+// own or those of a grandchild that fills it) and child B (two rows, narrow,
+// wide, mixed or unwritten, at every column, below or above A) overlap in
+// every way: the later-painted surface starts or ends on the left half, on
+// the right half or on both halves of a wide grapheme of the surface under it.
+// No wide grapheme hangs over the edge of its own surface and every surface is
+// inside the root, so Surface!Want judges every frame.
+func GenPaintWide(rng *rand.Rand, thorough bool) []*Scn {
+	const cols, rows = 7, 2
+	apats := []string{"WW", "nWn", "nnW", "Wnn", "nnnn"}
+	bpats := []string{"n", "W", "nW", "Wn", "..", "nn"}
+	var frames []*SD
+	for ai, ap := range apats {
+		for bi, bp := range bpats {
+			bw := patWidth(bp)
+			nests := []bool{rng.Intn(2) == 0} // quick: one of the two per pair of patterns
+			if thorough {
+				nests = []bool{false, true}
+			}
+			for _, nest := range nests {
+				for x := 0; x+bw <= cols; x++ {
+					for _, z := range []int{-1, 1} {
+						root := &SD{W: cols, H: rows, Fg: 1, Writes: append(rowWrites("nnnnnnn", 0, 0), rowWrites("nWWnn", 1, 1)...)}
+						a := &SD{W: 4, H: 1, Fg: 2}
+						if nest {
+							a.Kids = []KD{{X: 0, Y: 0, Z: 0, S: &SD{W: 4, H: 1, Fg: 4, Writes: rowWrites(ap, 0, 2+ai)}}}
+						} else {
+							a.Writes = rowWrites(ap, 0, 2+ai)
+						}
+						b := &SD{W: bw, H: 2, Fg: 3, Writes: append(rowWrites(bp, 0, 5+bi), rowWrites(bp, 1, 6+bi)...)}
+						// one surface in four leaves the widths of its cells to the library
+						switch rng.Intn(8) {
+						case 0:
+							a.Auto = true
+							if nest {
+								a.Kids[0].S.Auto = true
+							}
+						case 1:
+							b.Auto = true
+						}
+						ka, kb := KD{X: 1, Y: 0, Z: 0, S: a}, KD{X: x, Y: 0, Z: z, S: b}
+						root.Kids = []KD{ka, kb}
+						if rng.Intn(2) == 0 {
+							root.Kids = []KD{kb, ka}
+						}
+						frames = append(frames, root)
+					}
+				}
+			}
+		}
+	}
+	var out []*Scn
+	for i := 0; i < len(frames); i += 12 {
+		j := i + 12
+		if j > len(frames) {
+			j = len(frames)
+		}
+		out = append(out, &Scn{Kind: "paint", Cols: cols, Rows: rows, Frames: frames[i:j]})
+	}
+	return out
+}
+
+// PaintWideFixed: a root with wide graphemes only; a one-cell child on the
+// right half of a wide grapheme of a lower child (text "x" over text "你好");
+// a wide child over that right half; a child on the left half; back.
+func PaintWideFixed() []*Scn {
+	low := func() KD {
+		return KD{X: 0, Y: 0, Z: 0, S: &SD{W: 4, H: 1, Fg: 2, Writes: [][3]int{{0, 0, '你'}, {2, 0, '好'}}}}
+	}
+	root := func(kids ...KD) *SD {
+		return &SD{W: 10, H: 2, Fg: 1, Writes: [][3]int{{0, 1, '世'}, {2, 1, '界'}, {4, 1, 'z'}, {8, 1, '世'}}, Kids: kids}
+	}
+	return []*Scn{{Kind: "paint", Cols: 10, Rows: 2, Frames: []*SD{
+		root(),
+		root(low(), KD{X: 1, Y: 0, Z: 1, S: &SD{W: 1, H: 1, Fg: 3, Writes: [][3]int{{0, 0, 'x'}}}}),
+		root(low(), KD{X: 1, Y: 0, Z: 1, S: &SD{W: 2, H: 2, Fg: 3, Writes: [][3]int{{0, 0, '世'}, {0, 1, '界'}}}}),
+		root(low(), KD{X: 2, Y: 0, Z: 1, S: &SD{W: 1, H: 2, Fg: 3, Auto: true, Writes: [][3]int{{0, 0, 'y'}, {0, 1, 'y'}}}}),
+		root(),
+	}}}
+}
+
+// widen replaces, in surfaces that lie entirely inside all their ancestors
+// and the screen and were filled cell by cell, some pairs of neighbouring
+// cells by one wide grapheme (the covered column is then not written).
+func widen(s *SD, rng *rand.Rand, inside bool) {
+	if inside && s.W > 1 && len(s.Writes) == s.W*s.H {
+		var ws [][3]int
+		for i := 0; i < len(s.Writes); i++ {
+			wr := s.Writes[i]
+			if wr[0]+1 < s.W && rng.Intn(4) == 0 {
+				ws = append(ws, [3]int{wr[0], wr[1], wideRunes[rng.Intn(len(wideRunes))]})
+				i++ // the cell under its right half
+				continue
+			}
+			ws = append(ws, wr)
+		}
+		s.Writes = ws
+		s.Auto = rng.Intn(5) == 0
+	}
+	for _, k := range s.Kids {
+		widen(k.S, rng, inside && k.X >= 0 && k.Y >= 0 && k.X+k.S.W <= s.W && k.Y+k.S.H <= s.H)
+	}
 }
